@@ -13,6 +13,8 @@ RING.right-end        : the trace ring is bounded and only appended at the right
 """
 import ast
 
+from sa.boolflow import must_atoms
+
 from sa.model import AnalysisError, walk_shallow, dotted, norm
 from sa.util import cfg_of, shallow_calls, guarded_by_edge, status_const, signal_const, local_defs, resolve_name
 from sa.context import callgraph
@@ -109,8 +111,13 @@ def check(run, model, tier):
                 txt = ' && '.join(norm(t.ast) for t in tests)
                 # the "hooked" local: the element of the scan helper's result that the helper sets True under `.hook`
                 hv = hooked_var(fac, inner)
-                hook_ok = hv is not None and any(('%s is False' % hv) in norm(t.ast) or ('not %s' % hv) in norm(t.ast) for t in tests)
-                ign_ok = any(('.event.ignored is False' in norm(t.ast)) or ('not %s.event.ignored' % recv in norm(t.ast)) for t in tests)
+                atoms = must_atoms(g, n, inner.node, params=inner.params)
+                txt = ' && '.join('%s %s %s' % a for a in sorted(atoms))
+
+                def is_false(name):
+                    return any((l == name and op in ('Is', 'Eq') and r == 'False') or (l == name and op == 'Falsy') or (l == name and op in ('IsNot', 'NotEq') and r == 'True') for (l, op, r) in atoms)
+                hook_ok = hv is not None and is_false(hv)
+                ign_ok = is_false('%s.event.ignored' % recv)
                 run.inst('TRACE.transition-only', inner, 'record only when the step was not a hook', hook_ok,
                          '' if hook_ok else 'the trace record is not conditional on "not hooked": internally handled events get a record (guards: %s)' % txt, node=c, obligation=True)
                 run.inst('TRACE.transition-only', inner, 'record only when the event was not ignored', ign_ok,
